@@ -1160,10 +1160,10 @@ def sweep_strings(thorough):
 def run(run):
     import pywbem
     rng = run.rng
-    n_paths = 85000 if run.thorough else 5000
+    n_paths = 60000 if run.thorough else 5000
     n_cpaths = 12000 if run.thorough else 1200
-    n_texts = 400000 if run.thorough else 20000
-    n_lits = 150000 if run.thorough else 6000
+    n_texts = 300000 if run.thorough else 20000
+    n_lits = 100000 if run.thorough else 6000
     run.rule = ('seeded random instance paths (0..6 keybindings of type string/char16/boolean/uintN/sintN/int/real32/real64/float incl. '
                 'INF/NaN/exponent forms/random bit patterns, datetime incl. asterisks, reference nested <= 3; strings weighted toward '
                 'quote, backslash, comma, =, apostrophe, newline, look-alikes of datetimes/URIs/literals; hosts incl. IPv6, ports, '
